@@ -105,6 +105,7 @@ class RaggedArray:
         self._indices = Array(self._indicespath, accessmode=self._accessmode)
         self._metadata = MetaData(self._path / self._metadatafilename,
                                   accessmode=accessmode)
+        self._check_arraysconsistency()
         arrayinfo = {}
         arrayinfo['len'] = len(self._indices)
         arrayinfo['size'] = self._values.size
@@ -113,6 +114,18 @@ class RaggedArray:
         arrayinfo['darrversion'] = RaggedArray._formatversion
         arrayinfo['darrobject'] = 'RaggedArray'
         self._arrayinfo = arrayinfo
+
+    def _check_arraysconsistency(self):
+        # the end index of the last subarray should be the length of the
+        # values array; if not, an append or truncate has been interrupted
+        if len(self._indices) > 0:
+            lastend = int(self._indices[-1][-1])
+        else:
+            lastend = 0
+        if lastend != len(self._values):
+            raise ValueError(
+                f"last index ({lastend}) in indices array is different from "
+                f"length of values array ({len(self._values)})")
 
     @property
     def accessmode(self):
